@@ -165,6 +165,8 @@ func (p *Program) SourceHash(fn *ssa.Function) string {
 	return fmt.Sprintf("%x", h[:6])
 }
 
+func ssautilAllFunctions(p *ssa.Program) map[*ssa.Function]bool { return ssautil.AllFunctions(p) }
+
 func NewEngine(p *Program) (*Engine, error) {
 	bin := p.cfg.Solver
 	if bin == "" {
@@ -197,6 +199,8 @@ func NewEngine(p *Program) (*Engine, error) {
 		e.runtimeErrT = types.Typ[types.String]
 	}
 	e.res = newResult("init")
+	e.skipInit = map[*ssa.Function]func(){}
+	e.setupGF2P16()
 	return e, nil
 }
 
@@ -254,7 +258,7 @@ func (e *Engine) initPackage(pkg *ssa.Package) {
 func (e *Engine) InitPackages(pkgs []*ssa.Package) (err error) {
 	defer func() {
 		if r := recover(); r != nil {
-			err = fmt.Errorf("package initialisation failed: %v", r)
+			err = fmt.Errorf("package initialisation failed: %v%s", r, e.where())
 		}
 	}()
 	e.opt.MaxSteps = 1 << 40
@@ -292,16 +296,42 @@ func (e *Engine) loadTables(pkg *ssa.Package) {
 	e.note("tables:native-dump")
 }
 
-func init() {
-	intrinsics["github.com/akalin/gopar/gf2p16.init#1"] = func(e *Engine, fr *frame, _ token.Pos, _ []Value) Value {
-		e.loadTables(fr.fn.Pkg)
-		return nil
-	}
-	intrinsics["github.com/akalin/gopar/gf2p16.init#2"] = func(e *Engine, fr *frame, _ token.Pos, _ []Value) Value {
-		g := fr.fn.Pkg.Var("hasSSSE3")
-		if g != nil {
-			*e.global(g) = term.Var("cpu_hasSSSE3", 0)
+// refersTo reports whether fn mentions the named package-level variable.
+func refersTo(fn *ssa.Function, global string) bool {
+	for _, b := range fn.Blocks {
+		for _, in := range b.Instrs {
+			for _, op := range in.Operands(nil) {
+				if g, ok := (*op).(*ssa.Global); ok && g.Name() == global {
+					return true
+				}
+			}
 		}
-		return nil
+	}
+	return false
+}
+
+// setupGF2P16 finds the table-building and CPU-detection initialisers of
+// gf2p16 by what they touch (their init#N numbers depend on file order).
+func (e *Engine) setupGF2P16() {
+	pkg := e.prog.ImportedPackage("github.com/akalin/gopar/gf2p16")
+	if pkg == nil {
+		return
+	}
+	for name, m := range pkg.Members {
+		fn, ok := m.(*ssa.Function)
+		if !ok || !strings.HasPrefix(name, "init#") {
+			continue
+		}
+		switch {
+		case refersTo(fn, "logTable"):
+			e.tableInit = fn
+			e.skipInit[fn] = func() { e.loadTables(pkg) }
+		case refersTo(fn, "hasSSSE3"):
+			e.skipInit[fn] = func() {
+				if g := pkg.Var("hasSSSE3"); g != nil {
+					*e.global(g) = term.Var("cpu_hasSSSE3", 0)
+				}
+			}
+		}
 	}
 }
